@@ -22,6 +22,18 @@ def mode_aliases(P):
                 and isinstance(n.value, ast.UnaryOp) and isinstance(n.value.op, ast.Not) \
                 and isinstance(n.value.operand, ast.Attribute):
             al[U(n.targets[0])] = ('not', U(n.value.operand))
+    # the complementary comparison of the same operands:  self.a = X == c ;  self.b = X != c
+    cmps = {}
+    for n in ast.walk(init.node):
+        if isinstance(n, ast.Assign) and len(n.targets) == 1 and isinstance(n.targets[0], ast.Attribute) and \
+                isinstance(n.value, ast.Compare) and len(n.value.ops) == 1 and isinstance(n.value.ops[0], (ast.Eq, ast.NotEq)):
+            key = (U(n.value.left), U(n.value.comparators[0]))
+            cmps.setdefault(key, []).append((U(n.targets[0]), isinstance(n.value.ops[0], ast.Eq)))
+    for key, lst in cmps.items():
+        eqs = [a for a, is_eq in lst if is_eq]
+        nes = [a for a, is_eq in lst if not is_eq]
+        if len(eqs) == 1 and len(nes) == 1 and nes[0] not in al:
+            al[nes[0]] = ('not', eqs[0])
     return al
 
 
@@ -132,6 +144,23 @@ def is_real_extent(text, axis, facts, fm, depth=0):
     if depth < 3:
         d = fm.resolve_def(t, facts)
         if d is not None:
+            # an element of a tuple held in a local:  limits = (1, n_traces, n_samples); upper = limits[1]
+            try:
+                e0 = ast.parse(d, mode='eval').body
+            except SyntaxError:
+                e0 = None
+            if isinstance(e0, ast.Subscript) and isinstance(e0.value, ast.Name) and isinstance(e0.slice, ast.Constant) and \
+                    isinstance(e0.slice.value, int):
+                dd = fm.resolve_def(e0.value.id, facts)
+                try:
+                    te = ast.parse(dd, mode='eval').body if dd is not None else None
+                except SyntaxError:
+                    te = None
+                if isinstance(te, ast.Tuple) and -len(te.elts) <= e0.slice.value < len(te.elts):
+                    return is_real_extent(U(te.elts[e0.slice.value]), axis, facts, fm, depth + 1)
+                if dd is not None and not isinstance(te, ast.Tuple):
+                    # the tuple itself is another object (e.g. the padded shape): its element is whatever that is
+                    return is_real_extent('%s[%d]' % (dd, e0.slice.value), axis, facts, fm, depth + 1)
             # conditional extent: a if flag else b  -> resolved with the facts in force
             try:
                 e = ast.parse(d, mode='eval').body
